@@ -234,16 +234,32 @@ fn chain(ctx: &mut Ctx, prop: &'static str) -> R {
                     5 => "transfer-encoding".to_string(),
                     _ => crate::gen::gen_token_name(ctx).to_ascii_lowercase(),
                 }
+            } else if prop == "C13" && ctx.chance(1, 2) {
+                // the caller's own credentials for the target (never the original secrets)
+                (*ctx.pick(&["cookie", "authorization"])).to_string()
             } else {
                 crate::gen::gen_token_name(ctx).to_ascii_lowercase()
             };
-            let value: Vec<u8> = match name.as_str() {
+            let mut value: Vec<u8> = match name.as_str() {
                 "host" => cur.uri.authority().into_bytes(),
                 "content-length" => cur.body.len().to_string().into_bytes(),
                 "transfer-encoding" => b"chunked".to_vec(),
                 "connection" => b"keep-alive".to_vec(),
                 _ => format!("jar-hop{}-{}-{}", depth, i, tag).into_bytes(),
             };
+            let structural = matches!(name.as_str(), "host" | "content-length" | "transfer-encoding" | "connection");
+            if !structural && ctx.chance(1, 6) {
+                // header values are bytes, not text (a Latin-1 cookie, a binary token)
+                value.extend_from_slice(&[b'=', 0xe9, 0xff, 0x80, b'z']);
+            }
+            if (prop == "C16" || prop == "C02") && !orig.is_empty() && ctx.chance(1, 8) {
+                // the jar re-attaches exactly what the original request carried
+                let (on, ov) = orig[ctx.draw_usize(orig.len())].clone();
+                if on != "content-length" {
+                    added.push((on.to_ascii_lowercase(), ov));
+                    continue;
+                }
+            }
             added.push((name, value));
         }
         // keep the resulting request inside what C17 accepts
@@ -450,6 +466,14 @@ fn chain(ctx: &mut Ctx, prop: &'static str) -> R {
                     }
                     if ai < cur.added.len() && originals.iter().any(|(on, ov)| on == n && ov == v) {
                         fail!("C16.original_before_added", "", "hop {}: original header {:?} precedes caller-added header {:?}", depth, n, cur.added[ai].0);
+                    }
+                }
+                // an added header that equals an inherited one must be there in addition to it
+                for (n, v) in &cur.added {
+                    let want = cur.added.iter().filter(|(an, av)| an == n && av == v).count() + originals.iter().filter(|(on, ov)| on == n && ov == v && !cur.suppressed.contains(&on.as_str())).count();
+                    let got = parsed.fields.iter().filter(|(wn, wv)| wn == n && wv == v).count();
+                    if got < want {
+                        fail!("C16.added_header_missing", "duplicate-of-original", "hop {}: header {:?}: {:?} was added {} time(s) and is inherited {} time(s) but is on the wire only {} time(s)", depth, n, show_bytes(v), want - originals.iter().filter(|(on, ov)| on == n && ov == v && !cur.suppressed.contains(&on.as_str())).count(), originals.iter().filter(|(on, ov)| on == n && ov == v && !cur.suppressed.contains(&on.as_str())).count(), got);
                     }
                 }
                 if ai < cur.added.len() {
